@@ -35,6 +35,7 @@ pub fn def() -> PropDef {
         required.push(format!("Q:{}", rep));
     }
     required.push("identity:both".into());
+    required.push("coz:summands".into());
     PropDef {
         id: "C01",
         check,
@@ -99,6 +100,30 @@ pub fn check(g: &[u8], ctx: &Ctx) -> Result<Info, Failure> {
             let p2: Pt<GA> = point(&mut s, &c2, cats[1])?;
             let q: Pt<GB> = point(&mut s, &d, cats[2])?;
             let q2: Pt<GB> = point(&mut s, &d2, cats[3])?;
+            // sometimes give the second summand a z related to the first one's by a small root of unity (shared z, or
+            // equal z^2 / z^3 / z^4): what X+Y, X-Y and hand-built representatives produce
+            let (mut p2, mut q2) = (p2, q2);
+            if s.choose(4) == 0 {
+                use crate::grp::Grp;
+                use crate::rf::Fld;
+                if kind == 1 && !p.k.is_zero() && !p2.k.is_zero() {
+                    let z = GA::coords(&p.val).2;
+                    if z != crate::rf::F::one() {
+                        let (zeta, zn) = GA::small_root_of_unity(s.choose(6));
+                        let zb = z.mul(&zeta);
+                        p2 = Pt { k: p2.k.clone(), rep: Rep::Rescaled, how: format!("rescaled to {} * (z of P)", zn), val: GA::rescaled(&p2.aff.unwrap(), &zb), aff: p2.aff };
+                        info.class("coz:summands");
+                    }
+                } else if kind == 2 && !q.k.is_zero() && !q2.k.is_zero() {
+                    let z = GB::coords(&q.val).2;
+                    if z != crate::rf::R2::one() {
+                        let (zeta, zn) = GB::small_root_of_unity(s.choose(6));
+                        let zb = z.mul(&zeta);
+                        q2 = Pt { k: q2.k.clone(), rep: Rep::Rescaled, how: format!("rescaled to {} * (z of Q)", zn), val: GB::rescaled(&q2.aff.unwrap(), &zb), aff: q2.aff };
+                        info.class("coz:summands");
+                    }
+                }
+            }
             pt_classes(&mut info, &p, &q);
             pt_classes(&mut info, &p2, &q2);
             info.nontrivial = true;
